@@ -921,6 +921,8 @@ func c20Worker(arg json.RawMessage) (any, error) {
 			avro.RegisterSchema(c20TypeOf(st.Type), c20RegSchema(st.Type, st.Variant))
 		case "run":
 			out = append(out, c20RunStep(st, regK, held))
+		case "anon":
+			out = append(out, []c20ContRes{{Container: "anon-check", SchemaErr: c20AnonCheck()}})
 		default:
 			return nil, fmt.Errorf("unknown step %q", st.Op)
 		}
@@ -1173,6 +1175,13 @@ func (p *c20Parent) scenario(label string, steps []c20Step, noOracle bool) {
 		}
 		conts := results[ri]
 		ri++
+		if st.Op == "anon" {
+			r.Count("anon-registration")
+			if len(conts) == 1 && conts[0].SchemaErr != "" {
+				p.failOnce(-1, "registration-of-unnamed-type", conts[0].SchemaErr, map[string]any{"scenario": label})
+			}
+			continue
+		}
 		for _, c := range conts {
 			cregs := regs
 			if st.Reuse {
@@ -1524,6 +1533,16 @@ func runC20(r *Run) {
 		{Op: "reg", Type: "Cents", K: k1}, {Op: "regschema", Type: "Cents"},
 		{Op: "run", Containers: c20AllContainers, Seed: seed, N: nv},
 	}, false)
+	// a registered schema that is itself a nullable union, null first or second: emitted as
+	// registered in every position (never wrapped in a second union)
+	p.scenario("registered-union-schema", []c20Step{
+		{Op: "reg", Type: "Tag", K: k1}, {Op: "regschema", Type: "Tag", Variant: "nullfirst"},
+		run(c20AllContainers),
+		{Op: "regschema", Type: "Tag", Variant: "nullsecond"},
+		run(c20AllContainers), fresh(c20AllContainers)}, false)
+	// RegisterSchema takes any reflect.Type: a registration for a type that is not a
+	// defined type ([16]byte, map[string]any) governs it like any other
+	p.scenario("unnamed-type-registration", []c20Step{{Op: "anon"}}, true)
 	// registration only after a first codec was built without any
 	p.scenario("first-after-build", []c20Step{
 		{Op: "run", Containers: late, Seed: seed, N: nv, Hold: true},
@@ -1631,4 +1650,34 @@ func runC20(r *Run) {
 		"the registry of a Go process is global and permanent: every scenario runs in a fresh child process",
 		"a codec built before a re-registration keeps the builder it was built with (scenario late-registration: reuse steps are compared with the model under the registrations at build time); only codecs built afterwards see the new registration",
 		"values of the C01 known-finding shapes (**T with a nil inner pointer, a non-nil pointer to an invalid null.* wrapper, nil *[]T of an unregistered slice type) are not judged here; they are counted under skipped/")
+}
+
+// c20AnonCheck (child): schemas registered for types without a name of their own.
+func c20AnonCheck() string {
+	fixed16 := avro.Schema{Type: "fixed", Object: &avro.SchemaObject{Type: "fixed", Name: "uuid", Size: 16}}
+	str := avro.Schema{Type: "string"}
+	avro.RegisterSchema(reflect.TypeOf([16]byte{}), fixed16)
+	avro.RegisterSchema(reflect.TypeOf(map[string]any(nil)), str)
+	type holder struct {
+		U [16]byte       `json:"u"`
+		P *[16]byte      `json:"p"`
+		L [][16]byte     `json:"l"`
+		M map[string]any `json:"m"`
+		N int64          `json:"n"`
+	}
+	s, err := avro.SchemaForType(holder{})
+	if err != nil {
+		return "SchemaForType refuses a struct whose fields are all expressible through registered schemas: " + err.Error()
+	}
+	if s.Object == nil || len(s.Object.Fields) != 5 {
+		return "SchemaForType(holder) is not a five-field record: " + schemaJSON(s)
+	}
+	want := []avro.Schema{fixed16, {Type: "union", Union: []avro.Schema{{Type: "null"}, fixed16}},
+		{Type: "array", Object: &avro.SchemaObject{Type: "array", Items: fixed16}}, str, {Type: "long"}}
+	for i, f := range s.Object.Fields {
+		if schemaJSON(f.Type) != schemaJSON(want[i]) {
+			return fmt.Sprintf("field %s of a struct using a type with a registered schema is generated as %s, registered (in that position): %s", f.Name, schemaJSON(f.Type), schemaJSON(want[i]))
+		}
+	}
+	return ""
 }
